@@ -379,6 +379,28 @@ PROPS['C05'] = {
 }
 
 
+PROPS['C08'] = {
+    'theorems': ['RQ.Abs.C08_calls', 'RQ.Abs.C08_window', 'RQ.Abs.C08_modes', 'RQ.Abs.C08_backup_is_prestate', 'RQ.Abs.C08_backups_total'],
+    'verdict': 'SPEC',
+    'jobs': push_jobs(['inv=2', 'patches=5'], ['inv=3', 'patches=6']),
+    'nontrivial': lambda l: re.search(r'2e70632f70[0-9a-f]*2f', l.split('|=>|')[-1]) is not None,
+    'histogram': push_hist,
+    'rule': PUSH_RULE + "; backup modes always / onfail / never and counts all / 0 / 1 / 2 / default are drawn per invocation; "
+            "series have several patches touching the same file and several file patches for one file in a patch, creates, "
+            "deletes, renames; prior applied state through earlier invocations. non-trivial = a quilt backup file exists",
+    'explanation': "Theorems: the backup loop = undo in memory + these writes (C08_calls); the backup that stays on disk for patch j "
+                   "and file n holds n exactly as it was before patch j - its state in the tree after the first j patches - for "
+                   "every push (C08_backup_is_prestate, via the refinement invariant: the applied stack is a chain of undoable "
+                   "steps per patch); every file patch of a patch in the window gets one and the undo never aborts "
+                   "(C08_backups_total); window arithmetic of --backup-count (C08_window); never / onfail-on-success write none "
+                   "(C08_modes). pushSpec's .pc/<patch>/<file> (pre-patch bytes and mode, zero-length if absent, both names of "
+                   "a rename) and .pc/applied-patches are compared byte for byte with the real tree.",
+    'trusted': PUSH_TRUSTED,
+    'assumptions': ["'restoring the backups in reverse order recreates the pre-push tree' (quilt pop) is checked through pushSpec's "
+                    "backup contents = pre-states; pop itself is not part of rapidquilt"],
+}
+
+
 def field(line, name):
     m = re.search(r'(?:^| )' + re.escape(name) + r'=(\S*)', line)
     return m.group(1) if m else None
